@@ -2,6 +2,7 @@ package core
 
 import (
 	"fmt"
+	"html"
 	"io"
 )
 
@@ -29,6 +30,6 @@ func (c *NavLink) WriteHTMLTo(w io.Writer) (int64, error) {
 		"class": "nav-item",
 	}, NewTag("a", map[string]string{
 		"class": fmt.Sprintf("nav-link %s", active),
-		"href":  c.link,
+		"href":  html.EscapeString(c.link),
 	}, NewText(c.text))).WriteHTMLTo(w)
 }
